@@ -217,7 +217,9 @@ namespace link_layer {
 
                     if ( l2cap_size <= MTUSize )
                     {
-                        receive_size_ = l2cap_size + overall_overhead;
+                        // a new SDU starts: drop what might be left over from an incomplete one
+                        receive_buffer_used_ = 0;
+                        receive_size_        = l2cap_size + overall_overhead;
                         add_to_receive_buffer( pdu.buffer, pdu.buffer + pdu.size );
                     }
                 }
@@ -243,7 +245,7 @@ namespace link_layer {
     {
         const std::size_t copy_size = std::min< std::size_t >( receive_size_, end - begin );
 
-        std::copy( begin, end, &receive_buffer_[ receive_buffer_used_ ] );
+        std::copy( begin, begin + copy_size, &receive_buffer_[ receive_buffer_used_ ] );
         receive_buffer_used_ += copy_size;
         receive_size_ -= copy_size;
     }
